@@ -47,7 +47,7 @@ def st_rstart(draw):
 
 @st.composite
 def st_rop(draw, extra=()):
-    o = draw(st.sampled_from(['append', 'append', 'iterappend', 'trunc', 'trunc', 'mode', 'reopen', 'read', 'ctx', 'failappend'] + list(extra)))
+    o = draw(st.sampled_from(['append', 'append', 'iterappend', 'trunc', 'trunc', 'mode', 'reopen', 'read', 'ctx', 'failappend', 'sibling'] + list(extra)))
     if o == 'append':
         return {'o': 'append', 'item': draw(st_item())}
     if o == 'iterappend':
@@ -77,6 +77,10 @@ def st_rop(draw, extra=()):
     if o == 'failappend':
         return {'o': 'failappend', 'items': [draw(st_item()) for _ in range(draw(st.integers(0, 3)))],
                 'kind': draw(st.sampled_from(['raise', 'badatom', 'unconv'])), 'gen': draw(st.booleans())}
+    if o == 'sibling':
+        return {'o': 'sibling', 'dt': draw(gens.st_dt()), 'atom': [draw(st.integers(1, 3)) for _ in range(draw(st.integers(0, 2)))],
+                'indextype': draw(st.sampled_from(INDEXTYPES)), 'items': [draw(st_item()) for _ in range(draw(st.integers(1, 3)))],
+                'via': draw(st.sampled_from(['as', 'as', 'copy', 'open']))}
     raise ValueError(o)
 
 
@@ -175,6 +179,31 @@ class RaggedRun:
         self.stepno = 0
         self.kinds = []
         self.nmut = 0
+        self.siblings = []      # other ragged arrays alive in the same process: (handle, path, dtype, atom, model list)
+
+    def check_siblings(self):
+        """The other arrays created during the history are still what they were (whatever the objects share must not leak)."""
+        import darr
+        for h, path, dt, atom, model in self.siblings:
+            try:
+                subs, values, indices, top = rawdec.decode_ragged(path)
+            except rawdec.FormatError as e:
+                self.out.viol('not-well-formed', 'sibling-array', str(e))
+                return False
+            ok = len(subs) == len(model) and values.dtype.str == dt.str and tuple(values.shape[1:]) == tuple(atom) and \
+                all(a.shape == b.shape and a.tobytes() == b.tobytes() for a, b in zip(subs, model))
+            try:
+                ok = ok and len(h) == len(model) and np.dtype(h.dtype).str == dt.str and \
+                    all(h[k].tobytes() == model[k].tobytes() for k in range(len(model)))
+                fresh = darr.RaggedArray(path)
+                ok = ok and len(fresh) == len(model) and tuple(fresh.atom) == tuple(atom)
+            except Exception as e:
+                self.out.viol('read-raised', 'sibling-array', f'{type(e).__name__}: {e}')
+                return False
+            if not ok:
+                self.out.viol('sibling-array-changed', 'sibling-array', f'{path}: no longer equal to what was stored in it')
+                return False
+        return True
 
     def total(self):
         return sum(len(x) for x in self.m)
@@ -416,6 +445,26 @@ class RaggedRun:
             self.m = m + mis
             self.nmut += 1
             return self.observe(tag)
+        if o == 'sibling':
+            # another ragged array (other dtype, atom, index type) comes to life in the same process and stays alive
+            self.out.cls('sibling-object-alive')
+            sdt, satom = dt_of(op['dt']), tuple(op['atom'])
+            spath = os.path.join(self.d, f'sib{self.stepno}.darr')
+            items = [build_item(it, sdt, satom) for it in op['items']]
+            try:
+                if op['via'] == 'copy' and m and not getattr(self, 'in_ctx', False):
+                    h = ra.copy(spath, accessmode='r+')
+                    sdt, satom, model = self.dt, self.atom, [x.copy() for x in m]
+                else:
+                    h = darr.asraggedarray(spath, items, dtype=sdt, indextype=op['indextype'], accessmode='r+', metadata={'sib': 1})
+                    model = [model_item(x, sdt) for x in items]
+                    if op['via'] == 'open':
+                        h = darr.RaggedArray(spath)
+            except Exception as e:
+                self.out.viol('valid-call-raised', f'sibling:{type(e).__name__}', f'step {self.stepno}: {type(e).__name__}: {e}')
+                return False
+            self.siblings.append((h, spath, sdt, satom, model))
+            return self.observe('after-sibling', full=False)
         if o == 'failappend':
             # an iterappend that fails after len(items) good items: the call must raise and exactly the good items are kept
             if self.mode == 'r' or getattr(self, 'in_ctx', False):
@@ -461,6 +510,21 @@ class RaggedRun:
             ok = type(idx) is int and 0 <= len(m[:idx]) < n
             tag = f"trunc:{op['i'] if not isinstance(op['i'], int) else ('neg' if op['i'] < 0 else 'pos')}"
             self.kinds.append('trunc')
+            if isinstance(idx, np.integer):
+                # NumPy integers: refusing them (state unchanged) and treating them like the equal Python int are both legitimate
+                self.out.cls('trunc-npint')
+                try:
+                    darr.truncate_raggedarray(target, idx)
+                except Exception:
+                    return self.observe(tag + ':rejected', full=False)
+                if not (0 <= int(idx) < n):
+                    self.out.viol('no-raise', tag, f'step {self.stepno}: truncation to {idx!r} of length {n} did not raise')
+                    return False
+                self.m = m[:int(idx)]
+                self.nmut += 1
+                if by != 'obj':
+                    self.ra = darr.RaggedArray(self.path, accessmode=self.mode)
+                return self.observe(tag)
             if not ok:
                 self.out.cls('rejected-call')
                 return self.expect_reject(tag, lambda: darr.truncate_raggedarray(target, idx))
@@ -622,6 +686,9 @@ def run_ragged_history(ctx, spec, oracles):
                     out.cls('zero-length-subarray')
             run.skip_live = False
             if ok and lazy:
-                run.observe('final:live')
+                ok = run.observe('final:live')
+            if ok and run.siblings:
+                run.check_siblings()
+        run.siblings = []
         run.ra = None
     return out, run
